@@ -454,7 +454,8 @@ class World:
             elif z < 0.8:
                 # add: re-create a removed descriptor (same handle) or clone a template under the same parent
                 if self.removed_descr and r.random() < 0.5:
-                    h = r.choice(sorted(self.removed_descr))
+                    ctxs = sorted(x for x, (d_, _s) in self.removed_descr.items() if d_.is_context_descriptor)
+                    h = r.choice(ctxs) if (ctxs and r.random() < 0.5) else r.choice(sorted(self.removed_descr))
                     script['calls'].append(['addDescr', h, None, r.random() < 0.85])
                 elif templates:
                     tmpl = r.choice(templates)
@@ -985,6 +986,18 @@ class World:
                     st = None
                     if not d.is_context_descriptor:
                         st = m.data_model.mk_state_container(d)
+                if d.is_context_descriptor and st is not None and with_state:
+                    # a context descriptor comes back together with one of its context states (add_descriptor(d, state_container=s)):
+                    # in the model that is the creation of a multi-state entity
+                    if m.context_states.handle.get_one(st.Handle, allow_none=True) is not None:
+                        return
+                    mds = d.source_mds
+                    d._source_mds = None  # noqa: SLF001
+                    st.descriptor_container = None
+                    self.emit(f'writeEntity {H(d.Handle)} {H(d.parent_handle)} {kind_of(d)} {d.DescriptorVersion} {self.dbody(d)} {H(mds)}'
+                              f' multi {self.show_c(st)}', 'ok')
+                    mgr.add_descriptor(d, state_container=st)
+                    return
                 if d.is_context_descriptor or st is None:
                     with_state = False
                 d._source_mds = None  # noqa: SLF001  (let the transaction determine it)
@@ -995,12 +1008,16 @@ class World:
                 self.emit(f'addDescr {H(d.Handle)} {H(d.parent_handle)} {kind_of(d)} {d.DescriptorVersion} {self.dbody(d)} - {sb}', 'ok')
                 mgr.add_descriptor(d, state_container=st if with_state else None)
 
-    def note_removed(self, before_descr, before_states):
-        """Remember descriptors (and their single state) that vanished, for re-creation with the same handle."""
+    def note_removed(self, before_descr, before_states, before_ctx=None):
+        """Remember descriptors (and their single state / one of their context states) that vanished, for re-creation with
+        the same handle."""
         now = {d.Handle for d in self.mdib.descriptions.objects}
         for h, d in before_descr.items():
             if h not in now and not d.is_context_descriptor:
                 self.removed_descr[h] = (d, before_states.get(h))
+            elif h not in now and before_ctx is not None:
+                mine = sorted((c for c in before_ctx.values() if c.DescriptorHandle == h), key=lambda c: c.Handle)
+                self.removed_descr[h] = (d, mine[0] if mine else None)
         for h in list(self.removed_descr):
             if h in now:
                 del self.removed_descr[h]
